@@ -70,14 +70,21 @@ func stackGeoSubnet(l *geoip.Location, fam netutil.AddrFamily) (n netip.Prefix, 
 // travels in the message, the location comes from the addresses.
 func stackReq(q reqSpec) (req *dns.Msg, remote netip.Addr) {
 	req = q.msg()
-	remote = stackAddr(q.ctry, q.fam6)
+	remote = stackAddr(q.ctry, q.remote6())
 	var sub netip.Prefix
 	switch {
 	case q.declined:
 		sub = zeroPrefix(q.fam6)
 	case q.clientECS:
 		sub = stackECSSubnet(q.ctry, q.fam6)
-		remote = stackAddr((q.ctry+1)%len(countries), q.fam6)
+		if q.ecsNoLoc {
+			// A subnet the GeoIP database has no data for.
+			sub = netip.MustParsePrefix("203.0.113.0/24")
+			if q.fam6 {
+				sub = netip.MustParsePrefix("2001:db8:dead::/48")
+			}
+		}
+		remote = stackAddr(q.connCtry(), q.remote6())
 	default:
 		return req, remote
 	}
@@ -143,7 +150,7 @@ func stackCampaign(o *hlib.Opts, r *hlib.Result) {
 	simpleRefU := &universe{seed: simpleSeed}
 	simpleWarm := newStack(caseCfg{kind: 's'}, simpleU)
 	simpleRef := newStack(caseCfg{}, simpleRefU)
-	simpleSeen := map[string]bool{}
+	simpleSeen := map[string][]reqSpec{}
 	for i := 0; i < n; i++ {
 		c := caseCfg{kind: 's'}
 		useed := simpleSeed
@@ -154,7 +161,7 @@ func stackCampaign(o *hlib.Opts, r *hlib.Result) {
 			useed = rng.Uint64()
 			u = &universe{seed: useed, ecs: true}
 			warm = newStack(c, u)
-			seen = map[string]bool{}
+			seen = map[string][]reqSpec{}
 		}
 		var ops []string
 		hits := 0
@@ -187,7 +194,7 @@ func stackCampaign(o *hlib.Opts, r *hlib.Result) {
 				q.qclass = dns.ClassINET
 			}
 			recent = append(recent, q)
-			ops = append(ops, q.tokens())
+			ops = append(ops, q.show())
 			before := u.calls
 			got, err := stackExchange(warm, q)
 			if err != nil || got == nil {
@@ -198,7 +205,7 @@ func stackCampaign(o *hlib.Opts, r *hlib.Result) {
 			}
 			key := q.okey(u.ecs, u)
 			if u.calls != before {
-				seen[key] = true
+				seen[key] = append(seen[key], q)
 				r.Count(fmt.Sprintf("stack.%c.miss", c.kind))
 
 				continue
@@ -223,7 +230,11 @@ func stackCampaign(o *hlib.Opts, r *hlib.Result) {
 			}
 			hits++
 			r.Count(fmt.Sprintf("stack.%c.hit", c.kind))
-			checkHit(r, c, q, got, fresh, 0, seen[key], replay)
+			checkHit(r, c, q, got, fresh, 0, len(seen[key]) > 0, replay, seen[key], func(f reqSpec) *dns.Msg {
+				fm, _ := stackExchange(newStack(c, &universe{seed: useed, ecs: c.kind == 'e'}), f)
+
+				return fm
+			})
 		}
 		r.Case(fmt.Sprintf("stack %s %d %s", c.line(), useed, strings.Join(ops, ";")), hits > 0)
 	}
